@@ -29,10 +29,6 @@ func SpecSplit(p Parser) bool       { panic("abstract spec function") }
 //@   assert after store numFields: master_field_count_is_read_once_per_listpack: masterSet == 0
 //@   set masterSet = 1 after store numFields
 
-//@ func types.NewListpack(data) (lp)
-//@   trusted here: allocates the cursor over data (its header parse is not decided here)
-//@   ensures fresh_cursor: lp != nil && fresh(lp)
-
 // ---- split values: every chunk of a value carries the key's expiry (C03) ----------------------
 // A value larger than the chunking threshold is handed out in several entries; the replay
 // applies the expiry per entry, so a continuation chunk without it would recreate the key as a
